@@ -59,7 +59,7 @@ FAMILIES = [{'/a/<x>', '/a/<x>/c', '/a/<n:int>'}, {'/b/<p:path>', '/b/<p:path>/e
 # the hook on the wildcard position spells the wildcard differently from the routes on it (`<w>` / `<x>`): names belong to rules
 HOOKS = {'/': '', '/a': 'a', '/a/<w>': 'a/' + W, '/h': 'h', '/ab': 'ab', '/zz': 'zz', '/a/b': 'a/b'}
 HOOKS_404 = ['/a', '/h', '/zz', '/a/b']
-EXTRA_PATHS = ['/a/nothing/here', '/h/zz/top', '/a/b/c/d', '/s/ab', '/s/c', '/s/b', '/s', '/i/5', '/i/abc', '/i/abc/e', '/i/5.json', '/i/7/e', '/', '/a/', '/abcd', '/a/5/c', '/a/b/c', '/zz', '/zz/top', '/h', '/h/z', '/b/end', '/b', '/x/d', '/a/b/', '/A', '/a//c', '/ab/']
+EXTRA_PATHS = ['/a/é', '/a/日本/c', '/é/d', '/a/b/zé', '/a/é/nothing', '/a/nothing/here', '/h/zz/top', '/a/b/c/d', '/s/ab', '/s/c', '/s/b', '/s', '/i/5', '/i/abc', '/i/abc/e', '/i/5.json', '/i/7/e', '/', '/a/', '/abcd', '/a/5/c', '/a/b/c', '/zz', '/zz/top', '/h', '/h/z', '/b/end', '/b', '/x/d', '/a/b/', '/A', '/a//c', '/ab/']
 PREFIXES = ['/a*', '/a/*', '/h/*', '/q*', '/a/b*', '/s/*']
 
 
